@@ -9,7 +9,8 @@
     names and amounts.  This file covers the family in which every name
     part is quoted or braced (no naked strings).  Definitions only. *)
 From Coq Require Import List ZArith NArith Bool String.
-From RG Require Import Base.Str Base.Dec Base.Num Model.Recipe Model.Compiler Model.Parser.
+From RG Require Import Base.Str Base.Dec Base.Num Gen.GenUnits Model.Recipe Model.Compiler Model.Parser.
+From RG Require Model.Units Spec.UnitsRef.
 Import ListNotations.
 Open Scope list_scope.
 Open Scope N_scope.
@@ -189,17 +190,34 @@ Definition seg_start (c : N) : bool := naked_edge c || (c =? 34) || (c =? 39) ||
 Definition name_followb (k : str) : bool := stopsb seg_start (snd (span is_hsp k)).
 
 (** ** Amounts (the part of the family proved so far: see Props/C06.v) *)
-Inductive amt :=
-| AmNum (t : ntext)                         (* 2 'eggs' : unit-less quantity *)
-| AmStar (t : ntext) (w : str)              (* 1/2 * 'sauce' *)
-| AmPercent (t : ntext) (w : str).          (* 50 % 'sauce' *)
 
-Definition print_amt (a : amt) : str :=
+(** A preposition word: "of" or "of the", any letter case, any horizontal space. *)
+Inductive pword := PwOf (o : str) | PwOfThe (o w2 th : str).
+Definition pword_str (p : pword) : str :=
+  match p with PwOf o => o | PwOfThe o w2 th => o ++ w2 ++ th end.
+(** [(hsp preposition)?] *)
+Definition oprep := option (str * pword).
+Definition oprep_str (p : oprep) : str :=
+  match p with None => [] | Some (w, pw) => w ++ pword_str pw end.
+
+Inductive amt :=
+| AmNum (t : ntext)                                         (* 2 'eggs' : unit-less quantity *)
+| AmUnit (t : ntext) (sp : str) (n v : str) (p : oprep)     (* 2 kg of the 'flour' : unit NAME [n] spelled [v] *)
+| AmOf (t : ntext) (w : str) (pw : pword)                   (* 1/2 of the 'sauce' *)
+| AmPercent (t : ntext) (w : str) (p : oprep)               (* 50 % of 'sauce' *)
+| AmStar (t : ntext) (w : str).                             (* 1/2 * 'sauce' *)
+
+Definition amt_num (a : amt) : ntext :=
+  match a with AmNum t | AmUnit t _ _ _ _ | AmOf t _ _ | AmPercent t _ _ | AmStar t _ => t end.
+Definition amt_tail (a : amt) : str :=
   match a with
-  | AmNum t => ntext_str t
-  | AmStar t w => ntext_str t ++ w ++ [42]
-  | AmPercent t w => ntext_str t ++ w ++ [37]
+  | AmNum _ => []
+  | AmUnit _ sp _ v p => sp ++ v ++ oprep_str p
+  | AmOf _ w pw => w ++ pword_str pw
+  | AmPercent _ w p => w ++ 37 :: oprep_str p
+  | AmStar _ w => w ++ [42]
   end.
+Definition print_amt (a : amt) : str := ntext_str (amt_num a) ++ amt_tail a.
 
 Definition percent_of (v : num) : num :=
   match ndiv v (NInt 100) with NOk q => q | _ => NInt 0 end.
@@ -207,17 +225,61 @@ Definition percent_of (v : num) : num :=
 Definition amt_val (a : amt) : amount :=
   match a with
   | AmNum t => AQty (mkQ (ntext_val t) None [] [])
+  | AmUnit t sp _ v p => AQty (mkQ (ntext_val t) (Some v) sp (oprep_str p))
+  | AmOf t w pw => AProp (PropVal (ntext_val t) false (w ++ pword_str pw))
+  | AmPercent t w p => AProp (PropVal (percent_of (ntext_val t)) true (w ++ 37 :: oprep_str p))
   | AmStar t w => AProp (PropVal (ntext_val t) false (w ++ [42]))
-  | AmPercent t w => AProp (PropVal (percent_of (ntext_val t)) true (w ++ [37]))
   end.
 
-Definition amt_ok (a : amt) : bool :=
-  match a with
-  | AmNum t => ntext_ok t
-  | AmStar t w => ntext_ok t && hsp_run w
-  | AmPercent t w => ntext_ok t && hsp_run w
-                     && match ndiv (ntext_val t) (NInt 100) with NOk _ => true | _ => false end
+(** [m] is the word [w] in some letter case (as the regex engine's IGNORECASE sees it). *)
+Definition ci_wordb (w m : str) : bool :=
+  Nat.eqb (List.length w) (List.length m)
+  && forallb (fun p => Units.lit_match_with true (fst p) (snd p)) (combine w m).
+
+Definition lm (a c : N) : bool := Units.lit_match_with true a c.
+
+Definition pword_ok (pw : pword) : bool :=
+  match pw with
+  | PwOf o => ci_wordb [111; 102] o
+  | PwOfThe o w2 th => ci_wordb [111; 102] o && hsp_run w2 && negb (is_nil w2) && ci_wordb [116; 104; 101] th
   end.
+Definition oprep_ok (p : oprep) : bool :=
+  match p with None => true | Some (w, pw) => hsp_run w && negb (is_nil w) && pword_ok pw end.
+
+(** [v] spells the unit name [n] of the generated table (letters in any case,
+    any whitespace between the words of a multi-word name), does not look
+    like the continuation of a number, of "%" / "*" or like a preposition. *)
+Definition unit_ok (n v : str) : bool :=
+  Units.str_mem n Units.all_names
+  && existsb (fun p => is_nil (snd p) && str_eqb (fst p) v)
+             (Units.match_pieces known_unit_ci (UnitsRef.pieces_of_name n) v)
+  && match v with
+     | c :: _ => negb (is_digit c) && negb (c =? 46) && negb (c =? 47) && negb (is_hsp c)
+                 && negb (c =? 37) && negb (c =? 42)
+     | [] => false
+     end
+  && match v with
+     | c1 :: c2 :: _ => negb (lm 111 c1 && lm 102 c2)
+     | [c1] => negb (lm 111 c1)
+     | [] => false
+     end.
+
+(** The text after the number is made of characters a naked string may
+    contain and does not end in whitespace (true of every sensible spelling;
+    needed because a NAME is tried on the text first). *)
+Definition tail_text_ok (T : str) : bool :=
+  forallb naked_mid T && (is_nil T || negb (is_ws (last T 0))).
+
+Definition amt_ok (a : amt) : bool :=
+  ntext_ok (amt_num a) && tail_text_ok (amt_tail a)
+  && match a with
+     | AmNum _ => true
+     | AmUnit _ sp n v p => hsp_run sp && unit_ok n v && oprep_ok p
+     | AmOf _ w pw => hsp_run w && negb (is_nil w) && pword_ok pw
+     | AmPercent t w p => hsp_run w && oprep_ok p
+                          && match ndiv (ntext_val t) (NInt 100) with NOk _ => true | _ => false end
+     | AmStar _ w => hsp_run w
+     end.
 
 (** ** Expressions, statements, recipes.  Whitespace annotations: [w..] are
     horizontal runs, [s..] arbitrary whitespace runs (line breaks allowed). *)
